@@ -152,6 +152,9 @@ let dispatch name =
     pres pobj (Exec.q_obj_make_periodic o (Z.of_int c) d)
   | "obj_lower_periodic" -> let o = robj () in let t = rnat () in let d = rnat () in
     pres pobj (Exec.q_obj_lower_periodic o t d)
+  | "wf_obj" -> let tol = rq () in let o = robj () in pbool (Exec.q_wf_obj_b tol o)
+  | "basis_ctor" -> let tol = rq () in let p = rint () in let k = rqlist () in let per1 = rnat () in
+    pres pbasis (Exec.q_basis_ctor tol (Z.of_int p) k per1)
   | _ -> out ("UNKNOWN " ^ name)
 
 let () =
